@@ -679,3 +679,132 @@ Proof.
   - cbn [bind]. rewrite (res_map_id (emit_current fixed)) by (intros x _; reflexivity). cbn [bind v_terminate fixed]. reflexivity.
   - intros g Hg. apply (HIn g H). apply (sort_opt_In _ _ _ Hg).
 Qed.
+
+(* ---------------------------------------------------------------- terminating the last line, on these shapes *)
+Lemma ensure_nl_node k cs : ensure_nl (Node k cs) = Node k (ensure_nl_list cs).
+Proof. reflexivity. Qed.
+Lemma enl_snoc a x : ensure_nl_list (a ++ [x]) =
+  a ++ match x with Tok NEWLINE _ => [x] | Tok _ _ => [x; Tok NEWLINE [10%N]] | Node _ _ => [ensure_nl x] end.
+Proof. rewrite Deb822EditP.ensure_nl_list_spec, rev_app_distr. cbn [rev app]. rewrite rev_involutive. reflexivity. Qed.
+Lemma enl_nil : ensure_nl_list [] = [].
+Proof. reflexivity. Qed.
+
+Lemma emit_ends n T : forall lwn, snd (emit_indented n lwn T) = true ->
+  (T = [] /\ lwn = true) \/ exists e' s, fst (emit_indented n lwn T) = e' ++ [Tok NEWLINE s].
+Proof.
+  induction T as [|t r IH]; intros lwn H; [left; split; [reflexivity|exact H]|]. right. cbn [emit_indented] in *.
+  specialize (IH (is_nl_tok t)). destruct (emit_indented n (is_nl_tok t) r) as [e l] eqn:Ee. cbn [fst snd] in *.
+  destruct (IH H) as [[-> En]|(e' & s & E)].
+  - cbn [emit_indented] in Ee. injection Ee as <- _. destruct t as [k s]. unfold is_nl_tok in En. cbn [fst] in En.
+    exists (if lwn then [Tok INDENT (spaces n)] else []), s. destruct k; try discriminate. reflexivity.
+  - exists ((if lwn then [Tok INDENT (spaces n)] else []) ++ tok_elem t :: e'), s. rewrite E, <- app_assoc. reflexivity.
+Qed.
+
+Lemma rebuild_ends_nl T kl n iel mll : exists O' s, rebuild_value fixed T kl n iel mll = O' ++ [Tok NEWLINE s].
+Proof.
+  unfold rebuild_value.
+  destruct ((match mll with Some m => (first_line_len T kl <=? m)%N | None => false end) && negb (has_newline T)).
+  - eexists _, _. reflexivity.
+  - set (down := _ || _). set (T' := drop_while is_nl_or_ws_tok T). pose proof (emit_ends n T' down) as He.
+    destruct (emit_indented n down T') as [e l] eqn:Ee. cbn [fst snd] in He. destruct l.
+    + rewrite app_nil_r. destruct (He eq_refl) as [[ET Hd]|(e' & s & ->)].
+      * rewrite ET in Ee. cbn [emit_indented] in Ee. injection Ee as <- _. rewrite Hd. exists [], [10%N]. reflexivity.
+      * eexists _, s. rewrite app_assoc. reflexivity.
+    + eexists _, _. reflexivity.
+Qed.
+
+Lemma ensure_nl_e_out ind iel mll e : ensure_nl (e_out ind iel mll e) = e_out ind iel mll e.
+Proof.
+  unfold e_out, entry_out. destruct (rebuild_ends_nl (entry_T (children e)) (entry_kl (children e)) (entry_n ind (children e)) iel mll) as (O' & s & E).
+  rewrite E, ensure_nl_node, app_assoc, enl_snoc. reflexivity.
+Qed.
+
+(* the loose tokens after the last entry, terminated *)
+Definition term_tr (tr : list tree) : list tree :=
+  match rev tr with Tok COMMENT _ :: _ => tr ++ [Tok NEWLINE [10%N]] | _ => tr end.
+
+Lemma term_tr_loose tr : forallb loose tr = true -> forallb loose (term_tr tr) = true.
+Proof. intros H. unfold term_tr. destruct (rev tr) as [|x r]; [exact H|]. destruct x as [k s|]; [destruct k|]; try exact H. rewrite forallb_app, H. reflexivity. Qed.
+Lemma term_tr_idem tr : forallb loose tr = true -> term_tr (term_tr tr) = term_tr tr.
+Proof.
+  intros H. assert (Hn : forall t : list tree, (forall k s r, rev t = Tok k s :: r -> k <> COMMENT) -> (forall k c r, rev t = Node k c :: r -> True) -> term_tr t = t).
+  { intros t Hk _. unfold term_tr. destruct (rev t) as [|x r] eqn:E; [reflexivity|]. destruct x as [k s|]; [|reflexivity].
+    destruct k; try reflexivity. exfalso. apply (Hk COMMENT s r eq_refl). reflexivity. }
+  unfold term_tr at 2. destruct (rev tr) as [|x r] eqn:E; [reflexivity|].
+  destruct x as [k s|k cs]; [|reflexivity]. destruct k; try reflexivity.
+  rewrite (Hn (tr ++ [Tok NEWLINE [10%N]])); [unfold term_tr; rewrite E; reflexivity| |trivial].
+  intros k' s' r' E'. rewrite rev_app_distr in E'. cbn [rev app] in E'. injection E' as <- _ _. discriminate.
+Qed.
+
+(* a canonical paragraph: groups whose entries are fixed points of the entry step *)
+Definition canon_pgroups (ind : indentation) (iel : bool) (mll : option N) (esort : option (tree -> tree -> comparison)) (G : list (list tree * tree)) : Prop :=
+  (forall g, In g G -> group_ok g /\ entry_ok ind (snd g) = true /\ e_out ind iel mll (snd g) = snd g) /\
+  match option_map on_snd esort with Some e => lsorted e G | None => True end.
+
+Lemma p_out_canon_fix ind iel mll esort G tr : canon_pgroups ind iel mll esort G -> forallb loose tr = true ->
+  p_out ind iel mll esort (p_ungroup G tr) = p_ungroup G tr.
+Proof.
+  intros [HG Hs] Htr. unfold p_out. rewrite (p_groups_ungroup G tr [] (fun g Hg => proj1 (HG g Hg)) Htr).
+  assert (E : (match G with [] => ([], [] ++ tr) | g :: r => (([] ++ fst g, snd g) :: r, tr) end) = (G, tr))
+    by (destruct G as [|g r]; [reflexivity|destruct g; reflexivity]).
+  rewrite E. cbn [fst snd]. rewrite (sort_opt_sorted _ _ Hs). f_equal.
+  rewrite <- (map_id G) at 2. apply map_ext_in. intros g Hg. destruct (HG g Hg) as (_ & _ & B). rewrite B. destruct g; reflexivity.
+Qed.
+
+Lemma p_out_is_canon ind iel mll esort cs : forallb (pchild_ok ind) cs = true -> esort_ok ind iel mll esort ->
+  exists G tr, p_out ind iel mll esort cs = p_ungroup G tr /\ canon_pgroups ind iel mll esort G /\ forallb loose tr = true.
+Proof.
+  intros H Hes. destruct (p_groups_props ind cs [] H eq_refl) as [Hg Htr]. unfold p_out.
+  destruct (p_groups cs []) as [gs tr]. cbn [fst snd] in *.
+  set (L := sort_opt (option_map on_snd esort) gs).
+  assert (HL : forall g, In g L -> forallb loose (fst g) = true /\ entry_ok ind (snd g) = true /\ loose (snd g) = false)
+    by (intros g Hin; apply Hg; apply (sort_opt_In _ _ _ Hin)).
+  exists (map (fun g => (fst g, e_out ind iel mll (snd g))) L), tr. split; [reflexivity|]. split; [|exact Htr]. split.
+  - intros g' Hg'. apply in_map_iff in Hg'. destruct Hg' as (g & <- & Hin). destruct (HL g Hin) as (H1 & H2 & _). cbn [fst snd].
+    destruct (e_out_idem ind iel mll (snd g) H2) as [A B]. split; [split; [exact H1|reflexivity]|split; [exact A|exact B]].
+  - destruct esort as [e|]; cbn [option_map]; [|exact I]. destruct Hes as [Hc Hi].
+    assert (HsL : lsorted (on_snd e) L) by (unfold L; cbn [option_map sort_opt]; apply sort_by_lsorted; intros a b Hab; apply Hc; exact Hab).
+    revert HsL HL. generalize L as l. induction l as [|x r IH]; intros Hs HL'; [exact I|].
+    cbn [lsorted map] in *. destruct Hs as [Hx Hr]. split; [|apply IH; [exact Hr|intros g Hin; apply HL'; right; exact Hin]].
+    destruct r as [|y r']; [exact I|]. cbn [map]. unfold le_cmp, gtb, on_snd in *. cbn [snd].
+    rewrite (Hi (snd x) (snd y)); [exact Hx|apply (HL' x (or_introl eq_refl))|apply (HL' y (or_intror (or_introl eq_refl)))].
+Qed.
+
+Lemma enl_p_ungroup ind iel mll esort G tr : canon_pgroups ind iel mll esort G -> forallb loose tr = true ->
+  ensure_nl_list (p_ungroup G tr) = p_ungroup G (term_tr tr).
+Proof.
+  intros [HG _] Htr. unfold p_ungroup, term_tr. destruct (rev tr) as [|x r] eqn:Er.
+  - assert (tr = []) by (rewrite <- (rev_involutive tr), Er; reflexivity). subst tr. rewrite !app_nil_r.
+    destruct G as [|g0 G0]; [reflexivity|]. assert (Hne : g0 :: G0 <> []) by discriminate.
+    destruct (exists_last Hne) as (G' & g & E). rewrite E in *. rewrite map_app, concat_app. cbn [map concat]. rewrite app_nil_r, !app_assoc, enl_snoc.
+    assert (Hin : In g (G' ++ [g])) by (apply in_or_app; right; left; reflexivity).
+    destruct (HG g Hin) as (_ & He & Hf). destruct (entry_ok_shape ind (snd g) He) as (cs & Ecs & _ & _).
+    f_equal. assert (En : ensure_nl (snd g) = snd g) by (rewrite <- Hf; apply ensure_nl_e_out). rewrite Ecs in *. rewrite En. reflexivity.
+  - assert (Et : tr = rev r ++ [x]) by (rewrite <- (rev_involutive tr), Er; reflexivity). rewrite Et at 1. rewrite app_assoc, enl_snoc, <- app_assoc.
+    assert (Hx : loose x = true) by (rewrite forallb_forall in Htr; apply Htr; apply in_rev; rewrite Er; left; reflexivity).
+    destruct x as [k s|]; [|discriminate]. destruct k; try discriminate.
+    + rewrite Et. reflexivity.
+    + rewrite Et, <- app_assoc. reflexivity.
+Qed.
+
+Theorem pp_out_idem ind iel mll esort ps : forallb (pchild_ok ind) ps = true -> esort_ok ind iel mll esort ->
+  forallb (pchild_ok ind) (children (pp_out ind iel mll esort (Node PARAGRAPH ps))) = true /\
+  pp_out ind iel mll esort (pp_out ind iel mll esort (Node PARAGRAPH ps)) = pp_out ind iel mll esort (Node PARAGRAPH ps) /\
+  ensure_nl (pp_out ind iel mll esort (Node PARAGRAPH ps)) = pp_out ind iel mll esort (Node PARAGRAPH ps).
+Proof.
+  intros H Hes. destruct (p_out_is_canon ind iel mll esort ps H Hes) as (G & tr & E & Hcan & Htr).
+  pose proof (term_tr_loose tr Htr) as Htr'.
+  assert (EP : pp_out ind iel mll esort (Node PARAGRAPH ps) = Node PARAGRAPH (p_ungroup G (term_tr tr))).
+  { unfold pp_out. cbn [children]. rewrite E, ensure_nl_node, (enl_p_ungroup ind iel mll esort G tr Hcan Htr). reflexivity. }
+  rewrite EP. cbn [children].
+  assert (Hok : forallb (pchild_ok ind) (p_ungroup G (term_tr tr)) = true).
+  { unfold p_ungroup. rewrite forallb_app. apply andb_true_iff. split.
+    - rewrite forallb_forall. intros x Hx. apply in_concat in Hx. destruct Hx as (l & Hl & Hx). apply in_map_iff in Hl. destruct Hl as (g & <- & Hg).
+      destruct (proj1 Hcan g Hg) as ([P1 _] & P2 & _). apply in_app_or in Hx. destruct Hx as [Hx|[<-|[]]].
+      + rewrite forallb_forall in P1. unfold pchild_ok. rewrite (P1 x Hx). reflexivity.
+      + unfold pchild_ok. rewrite P2. apply orb_true_r.
+    - rewrite forallb_forall in *. intros x Hx. unfold pchild_ok. rewrite (Htr' x Hx). reflexivity. }
+  split; [exact Hok|]. unfold pp_out. cbn [children].
+  rewrite (p_out_canon_fix ind iel mll esort G (term_tr tr) Hcan Htr'), !ensure_nl_node, (enl_p_ungroup ind iel mll esort G _ Hcan Htr'), (term_tr_idem tr Htr).
+  split; reflexivity.
+Qed.
